@@ -156,6 +156,12 @@ def hyp_run(ctx: Ctx, strategy: Any, body: Callable[[Any], None], max_examples: 
         stateful_step_count=step_count,
     )
     s = ctx.sub_seed(tag)
+    # Shrinking is capped by a step counter (not time): after `cap` executions that follow the
+    # first failure the body stops checking, hypothesis' final replay then reports Flaky and
+    # the smallest failing case seen so far (the shrinker only ever tries smaller candidates)
+    # is reported instead.
+    cap = int(os.environ.get("VERIF_SHRINK_CAP", "400" if ctx.tier == "quick" else "2500"))
+    state = {"last": None, "after": 0}
     try:
         if stateful_machine is not None:
             from hypothesis.stateful import run_state_machine_as_test
@@ -167,18 +173,28 @@ def hyp_run(ctx: Ctx, strategy: Any, body: Callable[[Any], None], max_examples: 
             @sett
             @given(strategy)
             def _t(x: Any) -> None:
+                if state["last"] is not None:
+                    state["after"] += 1
+                    if state["after"] > cap:
+                        return
                 try:
                     body(x)
-                except Violation:
+                except Violation as v:
                     rec.frozen = True
+                    state["last"] = v
                     raise
 
             _t()
     except Violation as v:
         rec.violations.append({"message": v.message, "case": v.case, "seed": ctx.base_seed, "shard": ctx.shard})
     except hypothesis.errors.Flaky as e:  # includes FlakyFailure
-        # a flaky outcome may wrap a Violation: report as inconclusive, never as violation
-        raise HarnessError(f"flaky outcome under hypothesis: {e!r}")
+        if state["last"] is not None and state["after"] > cap:
+            v = state["last"]
+            rec.violations.append({"message": v.message + " [shrink capped]", "case": v.case,
+                                   "seed": ctx.base_seed, "shard": ctx.shard})
+        else:
+            # a flaky outcome may wrap a Violation: report as inconclusive, never as violation
+            raise HarnessError(f"flaky outcome under hypothesis: {e!r}")
     finally:
         rec.frozen = False
 
